@@ -66,7 +66,7 @@ type c27Run struct {
 }
 
 var c27EventTypes = []string{"member-join", "member-leave", "member-failed", "member-update", "member-reap", "user", "query"}
-var c27Names = []string{"deploy", "deploy2", "dep", "load", "re start", "x.y-z", "déploy", "uptime"}
+var c27Names = []string{"deploy", "deploy2", "dep", "load", "re start", "x.y-z", "déploy", "uptime", "deploy:prod", "deploy:", "a:b:c", "load:"}
 
 // c27Sanitize is the oracle's own reading of "sanitized": upper-case, everything
 // outside [A-Z0-9_] becomes '_'. Only used for ASCII tag names (for other names
